@@ -246,6 +246,8 @@ type Program struct {
 	Steps  []Step `json:"steps"`
 	Pinned bool   `json:"pinned"` // issued through one *sql.Conn instead of the pool
 	Init   []int  `json:"init"`
+	// ContinueOnError: the business code ignores a failed statement / local commit and goes on with the next step
+	ContinueOnError bool `json:"continue_on_error,omitempty"`
 }
 
 func (p Program) Names() string {
